@@ -35,7 +35,9 @@ CHECKS = {
                 "from a legacy source port so the complete answer set returns in the unicast reply; the reply is decoded "
                 "independently and compared with an executable registry model (answers exact incl. TTL, additionals "
                 "sound and disjoint); everything the responder multicasts later (queued answers) must belong to a service "
-                "registered, in that version, at that instant - also after in-place changes of a ServiceInfo. "
+                "registered, in that version, at that instant - also after in-place changes of a ServiceInfo; part of the runs "
+                "split queries into a truncated packet and a completing packet (probe or more known answers) and judge "
+                "the reply to the assembled query. "
                 "Exploration: the claim is over registry histories and their timing.",
         "technique": SIM + "ModelRegistry comparison per delivered query",
         "design_ref": "DESIGN.md §5 C03",
@@ -64,14 +66,16 @@ CHECKS = {
                 "(delay 1..60 s); the query trace is judged against the per-host reference cache: start-up schedule, "
                 "minimum spacing, justification of every refresh query, and bounded liveness of the 75 %/85 %/95 % refresh "
                 "steps (fractions of the record's own TTL, each at most the delay late) for every record left to expire; "
-                "chatty responders and interleaving steps of several types included. Exploration over histories x schedules; three scheduler defects "
+                "chatty responders, interleaving steps of several types, and process stalls placed between the steps of the "
+                "instance's own start-up included. Exploration over histories x schedules; five scheduler defects "
                 "were found this way and repaired.",
         "technique": SIM + "interval oracles on the query trace against ModelCache, hours of virtual time per run",
         "design_ref": "DESIGN.md §5 C10",
     },
     "C15": {
         "text": "Seeded search over hostile datagram streams (random bytes, mutated captures of the run's own traffic, "
-                "grammar-generated compression-pointer chains/cycles, oversize, invalid UTF-8, TC poisoning; mDNS and "
+                "grammar-generated compression-pointer chains/cycles, oversize, invalid UTF-8, TC poisoning, well-formed names "
+                "that are awkward as text (labels with dots, control characters); mDNS and "
                 "legacy source ports) interleaved with honest traffic of two real instances and in-flight corruption; "
                 "oracle: nothing reaches any event-loop exception handler, oversized datagrams have no effect, and after "
                 "the faults stop canary queries (also from the attacker's address) and a canary announcement are served "
@@ -161,7 +165,9 @@ CHECKS = {
                 "dropped datagram (position sampled, and enumerated over a fixed scenario) x the library's jitter; bounded "
                 "liveness oracle 17 s after the last change plus resolution of lookups started inside add_service (withdrawn "
                 "addresses may be resolved for 1.5 s only); a 'late browser' flavour starts browsers 30 s .. 73 min after "
-                "the last change.",
+                "the last change; a 'hot' flavour issues a change a few ms after the owner's first unicast answer to a browser "
+                "that has just started on a host that has just joined, with delays at the extremes and the loss among the "
+                "change's own datagrams; a third of the updates change the registered ServiceInfo in place.",
         "technique": SIM + "single-loss fault enumeration/sampling, bounded-liveness oracle after faults stop",
         "design_ref": "DESIGN.md §5 C07",
     },
